@@ -1,8 +1,10 @@
 (* C16 — by-hash retrieval and layout (decision table, alias lists, fallback).
-   The published layout (aliases linked next to the canonical file) is part of
-   the publish model (Props/C03.v). *)
-From AM.Model Require Import Base Path Targets Deb822 Select Kind Download.
-From AM.Lemmas Require Import SelectLemmas DownloadLemmas.
+   [aliases_and_canonical_identical]: after a whole stage every path of an
+   obtained variant - its by-hash aliases and its canonical name - holds one and
+   the same entry.  That these paths are what gets staged and swapped in is
+   RepoRun.staged_view (C08/C01) and the publish model (Props/C03.v). *)
+From AM.Model Require Import Base Path Targets Deb822 Select Kind Download Stage.
+From AM.Lemmas Require Import SelectLemmas DownloadLemmas StageRunLemmas Uniform.
 Open Scope string_scope.
 Open Scope list_scope.
 
@@ -53,3 +55,29 @@ Theorem fallback_canonical :
     map fst reqs' = map fst reqs ++ aliases ++ [canon].
 Proof. exact try_paths_fallback. Qed.
 Print Assumptions fallback_canonical.
+
+(* For every queue of files with pairwise disjoint target paths, every upstream
+   behaviour and every previous filesystem: a file obtained by a request (not by
+   the size pre-check) has, in the stage's FINAL filesystem, one and the same
+   entry (size, date - the tool hard-links them) on every path of the obtained
+   variant: by alias_list, on each by-hash/<Algorithm>/<hash> alias the Release
+   lists for it and on the canonical name. *)
+Theorem aliases_and_canonical_identical :
+  forall swallow u files fs,
+  disjoint_files files ->
+  let '(rs, fs') := run_stage swallow files u fs in
+  forall f res vi, In (f, FRun res) (combine files rs) -> out_variant (r_out res) = Some vi ->
+  exists v, nth_error (variants f) vi = Some v /\ uniform v fs'.
+Proof. exact stage_uniform_lemma. Qed.
+Print Assumptions aliases_and_canonical_identical.
+
+Example aliases_identical_example :
+  let v := {| vpaths := ["d/by-hash/SHA256/ab"; "d/by-hash/MD5Sum/cd"; "d/Packages.xz"]; vsource := "d/by-hash/SHA256/ab"; vsize := 10 |} in
+  let idx := {| dname := "d/Packages"; variants := [v]; check_size := false; ignore_errors := false; ignore_missing := false |} in
+  (* the first alias is unavailable, the second one answers *)
+  let u := [("d/by-hash/SHA256/ab", {| first := []; rest := {| pre_retries := 0; rbody := BMissing |} |});
+            ("d/by-hash/MD5Sum/cd", {| first := []; rest := {| pre_retries := 0; rbody := BOk (Some 10%N) (Some 1700000000%Z) 10 false |} |})] in
+  let '(rs, fs') := run_stage false [idx] u [("d/by-hash/SHA256/ab", {| fsize := 3; fmt := Local |})] in
+  map (lookup fs') (vpaths v) = [Some {| fsize := 10; fmt := Date 1700000000 |}; Some {| fsize := 10; fmt := Date 1700000000 |};
+                                 Some {| fsize := 10; fmt := Date 1700000000 |}].
+Proof. vm_compute. reflexivity. Qed.
